@@ -674,6 +674,13 @@ pub fn c02_c14(tier: Tier, which: &'static str) -> i32 {
             let _ = std::fs::write(dir.join("t").join(n1).join(n2), b"");
             let _ = std::fs::write(dir.join("t").join(n1).join("a").join(n3), b"");
             let _ = std::fs::write(dir.join("t").join(n3), b"");
+            // valid UTF-8 names that are unusual on Unix: a backslash (an ordinary character
+            // there), glob meta-characters, white space, a line feed, a non-ASCII letter
+            for name in ["we\\ird.txt", "*", "[a]", "sp ace", "new\nline", "\u{e9}t\u{e9}", "{a,b}", "\\"] {
+                let _ = std::fs::write(dir.join("t").join(name), b"");
+            }
+            let _ = std::fs::create_dir_all(dir.join("t").join("a\\b").join("c d"));
+            let _ = std::fs::write(dir.join("t").join("a\\b").join("c d").join("e\\f.txt"), b"");
             let base = dir.join("t");
             let mut checked = 0u64;
             let mut judge = |e: &fswalk::GotEntry, what: &str, glob: Option<&Glob<'_>>| {
@@ -703,12 +710,12 @@ pub fn c02_c14(tier: Tier, which: &'static str) -> i32 {
                     rep.alarm(Alarm {
                         class: None,
                         key: format!("bytes {} {:?}", what, e.rel),
-                        msg: format!("non-UTF-8 names, {}: entry {:?}: {}", what, e.path, bad.join("; ")),
+                        msg: format!("non-UTF-8 and unusual names, {}: entry {:?}: {}", what, e.path, bad.join("; ")),
                         case: json!({"kind": "bytes", "what": what}),
                     });
                 }
             };
-            for g in ["**", "*", "*/*", "**/a/*", "caf*/**", "**/*.txt"] {
+            for g in ["**", "*", "*/*", "**/a/*", "caf*/**", "**/*.txt", "a?b/**", "*/*/*", "?", "[!a]*"] {
                 let glob = Glob::new(g).unwrap();
                 if let Some(got) = fswalk::collect_glob(glob.walk(base.clone()), 200) {
                     for it in &got {
